@@ -110,7 +110,9 @@ func C13(run *report.Run) {
 		}
 		// the same document embedded after another physical form of it was embedded into the same directory
 		// (the forms differ in white space only: line terminators, final newline)
-		for _, pair := range [][2]string{{"crlf", "asis"}, {"asis", "crlf"}, {"asis", "notnl"}, {"notnl", "asis"}} {
+		forms["blanklines"] = bytes.ReplaceAll(orig, []byte("\n"), []byte("\n\n"))   // every line followed by an empty one
+		forms["indented"] = bytes.ReplaceAll(orig, []byte("\n  "), []byte("\n    ")) // deeper indentation (white space only)
+		for _, pair := range [][2]string{{"crlf", "asis"}, {"asis", "crlf"}, {"asis", "notnl"}, {"notnl", "asis"}, {"asis", "blanklines"}, {"blanklines", "asis"}, {"asis", "indented"}, {"indented", "asis"}} {
 			if !bytes.Equal(forms[pair[0]], forms[pair[1]]) {
 				cases = append(cases, c13case{id: "fixture:" + n + ":" + pair[1] + "-after-" + pair[0], spec: orig, raw: forms[pair[1]], pre: forms[pair[0]], dne: true})
 			}
